@@ -216,6 +216,20 @@ def rule_paxis(ctx):
             if isinstance(ix, ast.Name) and not vars_ and _bound_by_p_loop(fi, ix.id, psyms):
                 r.ok(construct=None)
                 continue
+            # a *parameter* of a private helper used as the direction index is bound by the caller: every call
+            # site must pass the variable of a loop over directions (or its own direction parameter)
+            if isinstance(ix, ast.Name) and ix.id in fi.params and fi.name.startswith('_'):
+                bad_sites = _bad_direction_callers(ctx, fi, ix.id)
+                if bad_sites is None:
+                    r.unknown(fi.site(n), 'helper %s takes the direction index `%s` as a parameter but no call site was found' % (fi.qualname, ix.id))
+                elif bad_sites:
+                    for (cf, c) in bad_sites:
+                        r.bad(Finding('C11.P1', _f(cf), norm(c)[:100], '%s passes `%s` for the direction parameter `%s` of %s outside a loop over directions'
+                                      % (cf.qualname, norm(c)[:60], ix.id, fi.qualname), cf.file, c.lineno))
+                else:
+                    r.ok(construct=_f(fi) + ':param:' + ix.id, nontrivial=True,
+                         sample='%s: direction index `%s` is a parameter; every caller passes its p-loop variable' % (fi.qualname, ix.id))
+                continue
             if isinstance(ix, ast.Slice) and not vars_ and fi.name in ('jacobian',):
                 r.ok(construct=None)
                 continue
@@ -225,6 +239,38 @@ def rule_paxis(ctx):
     r.stats = {'axis1_subscripts': n_sub}
     r.floor = 150
     return r
+
+
+def _bad_direction_callers(ctx, fi, pname):
+    """call sites of helper fi whose argument for `pname` is not a direction-loop variable; None if no call site"""
+    idx = fi.value_params().index(pname) if pname in fi.value_params() else None
+    sites = []
+    for cf in _funcs(ctx):
+        for c in walk_no_nested(cf.node):
+            if isinstance(c, ast.Call) and isinstance(c.func, ast.Attribute) and c.func.attr == fi.name:
+                sites.append((cf, c))
+    if not sites:
+        return None
+    bad = []
+    for cf, c in sites:
+        arg = None
+        for k in c.keywords:
+            if k.arg == pname:
+                arg = k.value
+        if arg is None and idx is not None and idx < len(c.args):
+            arg = c.args[idx]
+        ps = _psyms(cf)
+        loops = _p_loops(cf, ps)
+        ok = False
+        if isinstance(arg, ast.Name):
+            for lp, var, full in loops:
+                if var == arg.id and any(x is c for x in ast.walk(lp)):
+                    ok = True
+            if arg.id in cf.params and cf.name.startswith('_'):
+                ok = True
+        if not ok:
+            bad.append((cf, c))
+    return bad
 
 
 def _bound_by_p_loop(fi, name, psyms):
